@@ -131,3 +131,49 @@ Lemma('be_injective', [('A', t.ARR), ('ao', t.INT), ('Bq', t.ARR), ('bo', t.INT)
       hints=lambda v: [inst('be_top', a=v['A'], lo=v['ao'], n=t.sub(v['n'], t.ONE)), inst('be_top', a=v['Bq'], lo=v['bo'], n=t.sub(v['n'], t.ONE))],
       defs=lambda v: [unfold_be(v['A'], v['ao'], t.add(v['ao'], v['n'])), unfold_be(v['Bq'], v['bo'], t.add(v['bo'], v['n']))],
       doc='byte strings of equal length with equal big-endian value are equal byte for byte')
+
+
+# ---- little-endian twin of be_injective, and value bounds (used by the canonical lemma of BytesInteger, C02)
+from .intlemmas import unfold_le, unfold_pow2, P
+
+
+def _linj_stmt(v):
+    A, ao, Bq, bo, n, i = v['A'], v['ao'], v['Bq'], v['bo'], v['n'], v['i']
+    return t.implies(t.and_(t.ge(n, t.ZERO), bytes_in(A, ao, n), bytes_in(Bq, bo, n, 'by!'), t.eq(le_val(A, ao, t.add(ao, n)), le_val(Bq, bo, t.add(bo, n))),
+                            t.le(t.ZERO, i), t.lt(i, n)),
+                     t.eq(t.select(A, t.add(ao, i)), t.select(Bq, t.add(bo, i))))
+
+
+def _le_nonneg(v):
+    return t.implies(t.and_(t.ge(v['n'], t.ZERO), bytes_in(v['A'], v['ao'], v['n'])), t.ge(le_val(v['A'], v['ao'], t.add(v['ao'], v['n'])), t.ZERO))
+
+
+Lemma('le_nonneg', [('A', t.ARR), ('ao', t.INT), ('n', t.INT)], _le_nonneg, induct=('n', 0), ih_instances=lambda v: [{'A': v['A'], 'ao': t.add(v['ao'], t.ONE)}], tags=T + ('C02',),
+      defs=lambda v: [unfold_le(v['A'], v['ao'], t.add(v['ao'], v['n']))])
+Lemma('le_injective', [('A', t.ARR), ('ao', t.INT), ('Bq', t.ARR), ('bo', t.INT), ('n', t.INT), ('i', t.INT)], _linj_stmt, induct=('n', 0),
+      ih_instances=lambda v: [{'A': v['A'], 'ao': t.add(v['ao'], t.ONE), 'Bq': v['Bq'], 'bo': t.add(v['bo'], t.ONE), 'i': t.sub(v['i'], t.ONE)}], tags=T + ('C02',),
+      hints=lambda v: [inst('le_nonneg', A=v['A'], ao=t.add(v['ao'], t.ONE), n=t.sub(v['n'], t.ONE)), inst('le_nonneg', A=v['Bq'], ao=t.add(v['bo'], t.ONE), n=t.sub(v['n'], t.ONE))],
+      defs=lambda v: [unfold_le(v['A'], v['ao'], t.add(v['ao'], v['n'])), unfold_le(v['Bq'], v['bo'], t.add(v['bo'], v['n']))])
+
+Lemma('pow2_add8', [('k', t.INT)], lambda v: t.implies(t.ge(v['k'], t.ZERO), t.eq(P(t.add(v['k'], I(8))), t.mul(I(256), P(v['k'])))), tags=T + ('C02',),
+      defs=lambda v: [unfold_pow2(t.add(v['k'], I(j))) for j in range(8, 0, -1)])
+
+
+def _be_bound(v):
+    A, ao, n = v['A'], v['ao'], v['n']
+    V = be_val(A, ao, t.add(ao, n))
+    return t.implies(t.and_(t.ge(n, t.ZERO), bytes_in(A, ao, n)), t.and_(t.le(t.ZERO, V), t.lt(V, P(t.mul(I(8), n)))))
+
+
+def _le_bound(v):
+    A, ao, n = v['A'], v['ao'], v['n']
+    V = le_val(A, ao, t.add(ao, n))
+    return t.implies(t.and_(t.ge(n, t.ZERO), bytes_in(A, ao, n)), t.and_(t.le(t.ZERO, V), t.lt(V, P(t.mul(I(8), n)))))
+
+
+Lemma('be_bound', [('A', t.ARR), ('ao', t.INT), ('n', t.INT)], _be_bound, induct=('n', 0), ih_instances=lambda v: [{'A': v['A'], 'ao': v['ao']}], tags=T + ('C02',),
+      hints=lambda v: [inst('pow2_add8', k=t.mul(I(8), t.sub(v['n'], t.ONE)))],
+      defs=lambda v: [unfold_be(v['A'], v['ao'], t.add(v['ao'], v['n'])), unfold_pow2(t.ZERO)])
+Lemma('le_bound', [('A', t.ARR), ('ao', t.INT), ('n', t.INT)], _le_bound, induct=('n', 0), ih_instances=lambda v: [{'A': v['A'], 'ao': t.add(v['ao'], t.ONE)}], tags=T + ('C02',),
+      hints=lambda v: [inst('pow2_add8', k=t.mul(I(8), t.sub(v['n'], t.ONE)))],
+      defs=lambda v: [unfold_le(v['A'], v['ao'], t.add(v['ao'], v['n'])), unfold_pow2(t.ZERO)])
